@@ -1,4 +1,800 @@
+//! Generator of C19 unit groups: design units whose local declarations are referenced or not *by construction*.
+//!
+//! Every occurrence of a generated name is printed through `Gen::d` (declaration, `@D..@` marker) or `Gen::r`
+//! (reference, `@R..@` marker); the oracle of the check is computed from the markers only.
+//! `elig` of a declaration is the generator's verdict from the property's list by *syntactic category*
+//! (design unit, label, loop parameter, record element, enumeration literal, package-header item,
+//! component port/generic, formal of a subprogram declaration; a body/full declaration inherits from its
+//! declaration), independent of the analyser's entity kinds.
 use serde_json::{json, Value};
-pub fn gen_project(_seed: u64, pi: usize, _gpp: usize) -> Value {
-    json!({"id": format!("p{}", pi), "groups": [], "flip": false})
+use verif_harness::rng::Rng;
+
+#[derive(Clone, Copy, PartialEq, Debug)]
+enum Rk {
+    Entity,
+    Arch,
+    Process,
+    Subprog, // procedure body (may assign signals) or function body (`func` flag)
+    Block,
+    Generate,
+    PkgHead,
+    PkgBody,
+    ProtBody,
+}
+
+enum Piece {
+    T(String),
+    C(usize),
+}
+
+struct Region {
+    kind: Rk,
+    owner: usize, // entity id that is the `parent` of the declarations made in this region
+    func: bool,   // function body: no signal assignment, no wait
+    head: String,
+    decl: Vec<Piece>,
+    mid: String,
+    body: Vec<Piece>,
+    tail: String,
+    sink: Option<usize>,   // integer variable usable as assignment target in sequential code of this region
+    seq_host: Option<usize>, // region whose declarative part receives wrapper procedures (PkgHead -> PkgBody)
+}
+
+#[derive(Clone)]
+struct E {
+    name: String,
+    kind: &'static str,
+    parent: Option<usize>,
+    declby: Option<usize>,
+    elig: bool,
+}
+
+#[derive(Clone, Copy, PartialEq, Debug)]
+enum Oc {
+    Constant,
+    Signal,
+    Variable,
+    Generic,
+    PortIn,
+    PortOut,
+    Param,    // constant-class parameter of mode in
+    LoopPar,
+    Alias(bool, bool), // (static, assignable)
+}
+
+#[derive(Clone, Debug)]
+enum What {
+    IntObj(usize, Oc),
+    BitSig(usize, bool),
+    TimeConst(usize),
+    BoolConst(usize),
+    EnumType(usize, usize, usize),  // type, literal a, literal b
+    EnumObj(usize, usize, Oc),      // object, its type
+    RecType(usize, usize),          // type, integer element
+    RecObj(usize, usize, Oc),       // object, integer element
+    ArrType(usize),                 // array (0 to 3) of integer
+    ArrObj(usize, Oc),
+    IntSubtype(usize),
+    FileType(usize),
+    FileObj(usize),
+    AccType(usize),
+    Func(usize),       // entity a call after the body resolves to (the body) : integer -> integer
+    Proc(usize, Option<usize>), // procedure (v : in integer); formal `v` of the entity calls resolve to
+    Comp(usize, usize, usize),  // component, generic cg, port cp (in integer)
+    Attr(usize),
+    ProtType(usize, usize),     // protected type (entity a type mark after the body resolves to), function method get
+    Oper(usize, usize, usize),  // operator "-" on enum: function entity, literal a, literal b
+    ResFunc(usize),
+    Label(usize),
+}
+
+#[derive(Clone)]
+struct Target {
+    what: What,
+    region: usize,
+}
+
+pub struct Gen {
+    rng: Rng,
+    gid: usize,
+    ents: Vec<E>,
+    regions: Vec<Region>,
+    targets: Vec<Target>,
+    arch_sinks: Vec<(usize, usize)>, // (region, integer signal) sinks for concurrent code
+    pub site_stats: Vec<String>,
+    split: bool,
+}
+
+const INT_SITES_CONC: &[&str] = &[
+    "csa_value", "csa_cond_cond", "csa_cond_value", "csa_cond_else", "sel_expr", "sel_value", "sel_choice", "cassert_cond",
+    "cassert_report", "cpcall_actual", "call_arg", "generic_map_actual", "port_map_actual", "generate_range",
+    "if_generate_cond", "case_generate_expr", "block_guard", "block_generic_map", "block_port_map", "aggregate_value",
+    "aggregate_choice", "index", "slice_range", "qualified_operand", "conversion_operand", "unary_operand",
+    "binary_operand", "paren_operand", "after_value", "csa_target",
+];
+const INT_SITES_SEQ: &[&str] = &[
+    "vassign_value", "sassign_value", "if_cond", "elsif_cond", "case_expr", "case_choice", "loop_range", "while_cond",
+    "exit_cond", "next_cond", "wait_until", "assert_cond", "report_expr", "severity_site", "return_expr", "pcall_actual",
+    "assoc_named_actual", "vassign_target", "cond_vassign_cond", "sel_vassign_expr", "allocator_qualified",
+    "loop_discrete_range_constraint", "call_arg_seq", "aggregate_seq", "attr_image_arg",
+];
+const INT_SITES_DECL: &[&str] = &[
+    "default_value", "subtype_range", "subtype_index_constraint", "alias_name", "attr_spec_entity", "param_default",
+    "array_index_range", "type_range", "subtype_decl_range", "signal_default", "variable_default", "comp_generic_default",
+    "record_elem_constraint",
+];
+
+impl Gen {
+    fn new(seed: u64, gid: usize) -> Gen {
+        Gen { rng: Rng::new(seed), gid, ents: vec![], regions: vec![], targets: vec![], arch_sinks: vec![], site_stats: vec![], split: false }
+    }
+    fn ent(&mut self, prefix: &str, kind: &'static str, parent: Option<usize>, declby: Option<usize>, elig: bool) -> usize {
+        let id = self.ents.len();
+        let name = match declby {
+            Some(o) if kind != "design" => self.ents[o].name.clone(),
+            _ => format!("{}{}", prefix, id),
+        };
+        self.ents.push(E { name, kind, parent, declby, elig });
+        id
+    }
+    fn named_ent(&mut self, name: String, kind: &'static str, parent: Option<usize>, declby: Option<usize>, elig: bool) -> usize {
+        let id = self.ents.len();
+        self.ents.push(E { name, kind, parent, declby, elig });
+        id
+    }
+    fn d(&self, id: usize) -> String {
+        let e = &self.ents[id];
+        let o = |x: Option<usize>| x.map(|v| v.to_string()).unwrap_or_else(|| "-".to_string());
+        format!("@D{}:{}:{}:{}:{}@{}", id, e.kind, o(e.parent), o(e.declby), if e.elig { 1 } else { 0 }, e.name)
+    }
+    fn r(&self, id: usize, site: &str) -> String {
+        format!("@R{}:{}@{}", id, site, self.ents[id].name)
+    }
+    fn raw(&self, id: usize) -> String {
+        self.ents[id].name.clone()
+    }
+    fn region(&mut self, kind: Rk, owner: usize, func: bool) -> usize {
+        self.regions.push(Region {
+            kind,
+            owner,
+            func,
+            head: String::new(),
+            decl: vec![],
+            mid: String::new(),
+            body: vec![],
+            tail: String::new(),
+            sink: None,
+            seq_host: None,
+        });
+        self.regions.len() - 1
+    }
+    fn render(&self, r: usize) -> String {
+        let reg = &self.regions[r];
+        let mut s = reg.head.clone();
+        for p in &reg.decl {
+            match p {
+                Piece::T(t) => s.push_str(t),
+                Piece::C(c) => s.push_str(&self.render(*c)),
+            }
+        }
+        s.push_str(&reg.mid);
+        for p in &reg.body {
+            match p {
+                Piece::T(t) => s.push_str(t),
+                Piece::C(c) => s.push_str(&self.render(*c)),
+            }
+        }
+        s.push_str(&reg.tail);
+        s
+    }
+    fn decl(&mut self, r: usize, t: String) {
+        self.regions[r].decl.push(Piece::T(t));
+    }
+    fn body(&mut self, r: usize, t: String) {
+        self.regions[r].body.push(Piece::T(t));
+    }
+    fn target(&mut self, what: What, region: usize) {
+        self.targets.push(Target { what, region });
+    }
+    fn elig_in(&self, r: usize) -> bool {
+        // declarations directly in a package declaration are package-header items
+        self.regions[r].kind != Rk::PkgHead
+    }
+    fn allows_signals(&self, r: usize) -> bool {
+        matches!(self.regions[r].kind, Rk::Entity | Rk::Arch | Rk::Block | Rk::Generate | Rk::PkgHead)
+    }
+    fn allows_variables(&self, r: usize) -> bool {
+        matches!(self.regions[r].kind, Rk::Process | Rk::Subprog)
+    }
+    fn has_conc(&self, r: usize) -> bool {
+        matches!(self.regions[r].kind, Rk::Arch | Rk::Block | Rk::Generate)
+    }
+
+    // --------------------------------------------------------------------------------------------
+    // sequential / concurrent placement
+    // --------------------------------------------------------------------------------------------
+    /// an integer variable that sequential code placed for region `r` may assign; returns (host region for the
+    /// statement, sink variable)
+    fn seq_place(&mut self, r: usize, mk: &dyn Fn(&mut Gen, usize, usize) -> String) {
+        let kind = self.regions[r].kind;
+        match kind {
+            Rk::Process | Rk::Subprog => {
+                let sink = self.regions[r].sink.unwrap();
+                let t = mk(self, r, sink);
+                self.body(r, t);
+            }
+            Rk::Arch | Rk::Block | Rk::Generate | Rk::Entity => {
+                // wrap in a process of its own (entity: passive process cannot assign signals: uses a variable)
+                let owner = self.regions[r].owner;
+                let labelled = self.rng.chance(1, 2);
+                let lab = if labelled { Some(self.ent("wp", "conc", Some(owner), None, false)) } else { None };
+                // the parent of the variable is the process label entity (anonymous when unlabelled: not compared)
+                let pr = self.region(Rk::Process, lab.unwrap_or(usize::MAX), false);
+                let v = self.ent("kv", "obj", lab, None, true);
+                self.regions[pr].sink = Some(v);
+                let head = match lab {
+                    Some(l) => format!("  {} : process\n    variable {} : integer;\n", self.d(l), self.d(v)),
+                    None => format!("  process\n    variable {} : integer;\n", self.d(v)),
+                };
+                self.regions[pr].head = head;
+                self.regions[pr].mid = "  begin\n".to_string();
+                let st = mk(self, pr, v);
+                self.body(pr, st);
+                self.regions[pr].tail = match lab {
+                    Some(l) if self.rng.chance(1, 2) => format!("    wait;\n  end process {};\n", self.r(l, "endlabel")),
+                    _ => "    wait;\n  end process;\n".to_string(),
+                };
+                self.regions[r].body.push(Piece::C(pr));
+            }
+            Rk::PkgHead | Rk::PkgBody | Rk::ProtBody => {
+                // wrap in a helper procedure declared in the (package / protected) body
+                let host = self.regions[r].seq_host.unwrap_or(r);
+                let owner = self.regions[host].owner;
+                let p = self.ent("up", "over", Some(owner), None, true);
+                let pr = self.region(Rk::Subprog, p, false);
+                let v = self.ent("kv", "obj", Some(p), None, true);
+                self.regions[pr].sink = Some(v);
+                self.regions[pr].head = format!("  procedure {} is\n    variable {} : integer;\n", self.d(p), self.d(v));
+                self.regions[pr].mid = "  begin\n".to_string();
+                let st = mk(self, pr, v);
+                self.body(pr, st);
+                self.regions[pr].tail = "  end procedure;\n".to_string();
+                self.regions[host].decl.push(Piece::C(pr));
+            }
+        }
+    }
+    fn conc_sink(&mut self, r: usize) -> usize {
+        for (reg, s) in &self.arch_sinks {
+            if *reg == r {
+                return *s;
+            }
+        }
+        let owner = self.regions[r].owner;
+        let s = self.ent("ks", "obj", Some(owner), None, true);
+        let t = format!("  signal {} : integer;\n", self.d(s));
+        self.decl(r, t);
+        self.arch_sinks.push((r, s));
+        s
+    }
+
+    // --------------------------------------------------------------------------------------------
+    // helper declarations used by sites (each is a generated declaration with markers)
+    // --------------------------------------------------------------------------------------------
+    fn helper_func(&mut self, r: usize) -> usize {
+        let owner = self.regions[r].owner;
+        let el = self.elig_in(r);
+        if self.regions[r].kind == Rk::PkgHead {
+            // declaration in the header, body in the package body
+            let host = self.regions[r].seq_host.unwrap();
+            let bowner = self.regions[host].owner;
+            let fd = self.ent("hf", "sdecl", Some(owner), None, false);
+            let xd = self.ent("x", "iobj", Some(fd), None, false);
+            let t = format!("  function {} ({} : integer) return integer;\n", self.d(fd), self.d(xd));
+            self.decl(r, t);
+            let fb = self.ent("hf", "over", Some(bowner), Some(fd), false);
+            let xb = self.ent("x", "iobj", Some(fb), None, true);
+            let t = format!(
+                "  function {} ({} : integer) return integer is\n  begin\n    return {};\n  end function;\n",
+                self.d(fb),
+                self.d(xb),
+                self.r(xb, "return_expr")
+            );
+            self.decl(host, t);
+            return fd;
+        }
+        let f = self.ent("hf", "over", Some(owner), None, el);
+        let x = self.ent("x", "iobj", Some(f), None, true);
+        let t = format!(
+            "  function {} ({} : integer) return integer is\n  begin\n    return {};\n  end function;\n",
+            self.d(f),
+            self.d(x),
+            self.r(x, "return_expr")
+        );
+        self.decl(r, t);
+        f
+    }
+    /// procedure (v : in integer); returns (procedure entity calls resolve to, formal v of that entity)
+    fn helper_proc(&mut self, r: usize) -> (usize, usize) {
+        let owner = self.regions[r].owner;
+        if self.regions[r].kind == Rk::PkgHead {
+            let host = self.regions[r].seq_host.unwrap();
+            let bowner = self.regions[host].owner;
+            let pd = self.ent("hp", "sdecl", Some(owner), None, false);
+            let vd = self.ent("v", "iobj", Some(pd), None, false);
+            let t = format!("  procedure {} ({} : in integer);\n", self.d(pd), self.d(vd));
+            self.decl(r, t);
+            let pb = self.ent("hp", "over", Some(bowner), Some(pd), false);
+            let vb = self.ent("v", "iobj", Some(pb), None, true);
+            let t = format!("  procedure {} ({} : in integer) is\n  begin\n  end procedure;\n", self.d(pb), self.d(vb));
+            self.decl(host, t);
+            return (pd, vd);
+        }
+        let p = self.ent("hp", "over", Some(owner), None, true);
+        let v = self.ent("v", "iobj", Some(p), None, true);
+        let t = format!("  procedure {} ({} : in integer) is\n  begin\n  end procedure;\n", self.d(p), self.d(v));
+        self.decl(r, t);
+        (p, v)
+    }
+    fn helper_arr_sig(&mut self, r: usize) -> (usize, usize) {
+        // type + signal (or variable / constant) of it; returns (type, object)
+        let owner = self.regions[r].owner;
+        let el = self.elig_in(r);
+        let t = self.ent("hat", "type", Some(owner), None, el);
+        let o = self.ent("hao", "obj", Some(owner), None, el);
+        let txt = if self.allows_signals(r) {
+            format!("  type {} is array (0 to 3) of integer;\n  signal {} : {};\n", self.d(t), self.d(o), self.r(t, "subtype_mark_signal"))
+        } else if self.allows_variables(r) {
+            format!("  type {} is array (0 to 3) of integer;\n  variable {} : {};\n", self.d(t), self.d(o), self.r(t, "subtype_mark_variable"))
+        } else {
+            format!(
+                "  type {} is array (0 to 3) of integer;\n  constant {} : {} := (others => 0);\n",
+                self.d(t),
+                self.d(o),
+                self.r(t, "subtype_mark_constant")
+            )
+        };
+        self.decl(r, txt);
+        (t, o)
+    }
+    fn helper_comp(&mut self, r: usize) -> (usize, usize, usize) {
+        let owner = self.regions[r].owner;
+        let el = self.elig_in(r);
+        let c = self.ent("hc", "comp", Some(owner), None, el);
+        let g = self.ent("cg", "iobj", Some(c), None, false);
+        let p = self.ent("cp", "iobj", Some(c), None, false);
+        let t = format!(
+            "  component {} is\n    generic ({} : integer := 0);\n    port ({} : in integer := 0);\n  end component;\n",
+            self.d(c),
+            self.d(g),
+            self.d(p)
+        );
+        self.decl(r, t);
+        (c, g, p)
+    }
+    fn label(&mut self, r: usize, prefix: &str) -> usize {
+        let owner = self.regions[r].owner;
+        let owner = if owner == usize::MAX { None } else { Some(owner) };
+        self.ent(prefix, "conc", owner, None, false)
+    }
+
+    // --------------------------------------------------------------------------------------------
+    // sites for an integer-valued expression `e` that contains the reference(s) under test
+    // --------------------------------------------------------------------------------------------
+    /// `e(site)` renders the expression with the site kind in its markers.
+    /// stat: expression is static (constant / generic); assign: Some(f) renders it as an assignment target.
+    fn int_site(&mut self, r: usize, e: &dyn Fn(&Gen, &str) -> String, stat: bool, sig_target: Option<&dyn Fn(&Gen, &str) -> String>, var_target: Option<&dyn Fn(&Gen, &str) -> String>) -> bool {
+        // choose a context that the region supports
+        let kind = self.regions[r].kind;
+        let mut ctxs: Vec<u8> = vec![];
+        if self.has_conc(r) {
+            ctxs.push(0);
+            ctxs.push(0);
+        }
+        ctxs.push(1);
+        ctxs.push(1);
+        ctxs.push(2);
+        let ctx = *self.rng.pick(&ctxs);
+        match ctx {
+            0 => {
+                let site = *self.rng.pick(INT_SITES_CONC);
+                self.int_site_conc(r, site, e, stat, sig_target)
+            }
+            1 => {
+                let site = *self.rng.pick(INT_SITES_SEQ);
+                self.int_site_seq(r, site, e, stat, var_target)
+            }
+            _ => {
+                let site = *self.rng.pick(INT_SITES_DECL);
+                let _ = kind;
+                self.int_site_decl(r, site, e, stat)
+            }
+        }
+    }
+
+    fn int_site_conc(&mut self, r: usize, site: &str, e: &dyn Fn(&Gen, &str) -> String, stat: bool, sig_target: Option<&dyn Fn(&Gen, &str) -> String>) -> bool {
+        let x = e(self, site);
+        let k = self.conc_sink(r);
+        let kw = self.r(k, "sink_target");
+        let t = match site {
+            "csa_value" => format!("  {} <= {};\n", kw, x),
+            "csa_cond_cond" => format!("  {} <= 1 when {} > 0 else 2;\n", kw, x),
+            "csa_cond_value" => format!("  {} <= {} when {} > 0 else 0;\n", kw, x, self.r(k, "sink_read")),
+            "csa_cond_else" => format!("  {} <= 0 when {} > 0 else {};\n", kw, self.r(k, "sink_read"), x),
+            "sel_expr" => format!("  with {} select {} <= 1 when 0, 2 when others;\n", x, kw),
+            "sel_value" => format!("  with {} select {} <= {} when 0, 2 when others;\n", self.r(k, "sink_read"), kw, x),
+            "sel_choice" => {
+                if !stat {
+                    return false;
+                }
+                format!("  with {} select {} <= 1 when {}, 2 when others;\n", self.r(k, "sink_read"), kw, x)
+            }
+            "cassert_cond" => format!("  assert {} > 0 report \"m\" severity note;\n", x),
+            "cassert_report" => format!("  assert false report integer'image({}) severity note;\n", x),
+            "cpcall_actual" => {
+                let (p, _v) = self.helper_proc(r);
+                format!("  {}({});\n", self.r(p, "helper_call"), x)
+            }
+            "call_arg" => {
+                let f = self.helper_func(r);
+                format!("  {} <= {}({});\n", kw, self.r(f, "helper_call"), x)
+            }
+            "generic_map_actual" => {
+                if !stat {
+                    return false;
+                }
+                let (c, g, _p) = self.helper_comp(r);
+                let l = self.label(r, "ci");
+                format!("  {} : {} generic map ({} => {});\n", self.d(l), self.r(c, "inst_component"), self.r(g, "assoc_formal"), x)
+            }
+            "port_map_actual" => {
+                let (c, _g, p) = self.helper_comp(r);
+                let l = self.label(r, "ci");
+                if self.rng.chance(1, 2) {
+                    format!("  {} : {} port map ({} => {});\n", self.d(l), self.r(c, "inst_component"), self.r(p, "assoc_formal"), x)
+                } else {
+                    format!("  {} : component {} port map ({});\n", self.d(l), self.r(c, "inst_component"), x)
+                }
+            }
+            "generate_range" => {
+                if !stat {
+                    return false;
+                }
+                let l = self.label(r, "gl");
+                let j = self.ent("j", "loop", Some(l), None, false);
+                format!("  {} : for {} in 0 to {} generate\n  begin\n  end generate;\n", self.d(l), self.d(j), x)
+            }
+            "if_generate_cond" => {
+                if !stat {
+                    return false;
+                }
+                let l = self.label(r, "gl");
+                format!("  {} : if {} > 0 generate\n  begin\n  end generate;\n", self.d(l), x)
+            }
+            "case_generate_expr" => {
+                if !stat {
+                    return false;
+                }
+                let l = self.label(r, "gl");
+                format!("  {} : case {} generate\n    when 0 =>\n    when others =>\n  end generate;\n", self.d(l), x)
+            }
+            "block_guard" => {
+                let l = self.label(r, "bl");
+                format!("  {} : block ({} > 0)\n  begin\n  end block;\n", self.d(l), x)
+            }
+            "block_generic_map" => {
+                if !stat {
+                    return false;
+                }
+                let l = self.label(r, "bl");
+                let g = self.ent("bg", "iobj", Some(l), None, true);
+                format!(
+                    "  {} : block\n    generic ({} : integer);\n    generic map ({});\n  begin\n  end block;\n",
+                    self.d(l),
+                    self.d(g),
+                    x
+                )
+            }
+            "block_port_map" => {
+                let l = self.label(r, "bl");
+                let p = self.ent("bp", "iobj", Some(l), None, true);
+                format!(
+                    "  {} : block\n    port ({} : in integer);\n    port map ({});\n  begin\n  end block;\n",
+                    self.d(l),
+                    self.d(p),
+                    x
+                )
+            }
+            "aggregate_value" => {
+                let (_t, o) = self.helper_arr_sig(r);
+                if !self.allows_signals(r) {
+                    return false;
+                }
+                format!("  {} <= (0 => {}, others => 0);\n", self.r(o, "sink_target"), x)
+            }
+            "aggregate_choice" => {
+                if !stat || !self.allows_signals(r) {
+                    return false;
+                }
+                let (_t, o) = self.helper_arr_sig(r);
+                if self.rng.chance(1, 2) {
+                    format!("  {} <= ({} => 1, others => 0);\n", self.r(o, "sink_target"), x)
+                } else {
+                    format!("  {} <= (0 to {} => 1, others => 0);\n", self.r(o, "sink_target"), x)
+                }
+            }
+            "index" => {
+                if !self.allows_signals(r) {
+                    return false;
+                }
+                let (_t, o) = self.helper_arr_sig(r);
+                format!("  {} <= {}({});\n", kw, self.r(o, "indexed_prefix"), x)
+            }
+            "slice_range" => {
+                if !self.allows_signals(r) {
+                    return false;
+                }
+                let (_t, o) = self.helper_arr_sig(r);
+                format!("  {}(0 to 1) <= {}({} to 3);\n", self.r(o, "sink_target"), self.r(o, "slice_prefix"), x)
+            }
+            "qualified_operand" => format!("  {} <= integer'({});\n", kw, x),
+            "conversion_operand" => format!("  {} <= integer({});\n", kw, x),
+            "unary_operand" => format!("  {} <= -{};\n", kw, x),
+            "binary_operand" => {
+                if self.rng.chance(1, 2) {
+                    format!("  {} <= {} + 1;\n", kw, x)
+                } else {
+                    format!("  {} <= 1 + {};\n", kw, x)
+                }
+            }
+            "paren_operand" => format!("  {} <= ({}) * 2;\n", kw, x),
+            "after_value" => format!("  {} <= 0, {} after 1 ns;\n", kw, x),
+            "csa_target" => match sig_target {
+                Some(f) => format!("  {} <= 1;\n", f(self, site)),
+                None => return false,
+            },
+            _ => return false,
+        };
+        self.body(r, t);
+        self.site_stats.push(site.to_string());
+        true
+    }
+
+    fn int_site_seq(&mut self, r: usize, site: &str, e: &dyn Fn(&Gen, &str) -> String, stat: bool, var_target: Option<&dyn Fn(&Gen, &str) -> String>) -> bool {
+        if site == "case_choice" && !stat {
+            return false;
+        }
+        if site == "vassign_target" && var_target.is_none() {
+            return false;
+        }
+        let site_s = site.to_string();
+        let func_region = self.regions[r].func;
+        if func_region && matches!(site, "wait_until" | "sassign_value") {
+            return false;
+        }
+        let in_process_like = matches!(self.regions[r].kind, Rk::Process | Rk::Subprog);
+        // helpers must be declared in a region that is visible: use the region itself when it is sequential,
+        // otherwise the enclosing declarative region r
+        let mut hp: Option<(usize, usize)> = None;
+        let mut hf: Option<usize> = None;
+        if matches!(site, "pcall_actual" | "assoc_named_actual") {
+            hp = Some(self.helper_proc(r));
+        }
+        if site == "call_arg_seq" {
+            hf = Some(self.helper_func(r));
+        }
+        let mut hacc: Option<(usize, usize)> = None;
+        if site == "allocator_qualified" {
+            if !in_process_like {
+                return false;
+            }
+            let owner = self.regions[r].owner;
+            let owner = if owner == usize::MAX { None } else { Some(owner) };
+            let t = self.ent("hac", "type", owner, None, true);
+            let v = self.ent("hav", "obj", owner, None, true);
+            let txt = format!("    type {} is access integer;\n    variable {} : {};\n", self.d(t), self.d(v), self.r(t, "subtype_mark_variable"));
+            self.decl(r, txt);
+            hacc = Some((t, v));
+        }
+        let mut harr: Option<(usize, usize)> = None;
+        if site == "aggregate_seq" {
+            if !in_process_like {
+                return false;
+            }
+            harr = Some(self.helper_arr_sig(r));
+        }
+        let sig_sink = if site == "sassign_value" {
+            // needs a signal visible from r: only when r itself can declare signals
+            if self.allows_signals(r) && self.regions[r].kind != Rk::Entity && self.regions[r].kind != Rk::PkgHead {
+                Some(self.conc_sink(r))
+            } else {
+                return false;
+            }
+        } else {
+            None
+        };
+        let stat2 = stat;
+        let mk = move |g: &mut Gen, _pr: usize, kv: usize| -> String {
+            let x = e(g, &site_s);
+            let kw = g.r(kv, "sink_target");
+            let kr = g.r(kv, "sink_read");
+            match site_s.as_str() {
+                "vassign_value" => format!("    {} := {};\n", kw, x),
+                "sassign_value" => format!("    {} <= {};\n", g.r(sig_sink.unwrap(), "sink_target"), x),
+                "if_cond" => format!("    if {} > 0 then\n      null;\n    end if;\n", x),
+                "elsif_cond" => format!("    if {} > 0 then\n      null;\n    elsif {} > 1 then\n      null;\n    else\n      null;\n    end if;\n", kr, x),
+                "case_expr" => format!("    case {} is\n      when 0 => null;\n      when others => null;\n    end case;\n", x),
+                "case_choice" => {
+                    let _ = stat2;
+                    format!("    case {} is\n      when {} => null;\n      when others => null;\n    end case;\n", kr, x)
+                }
+                "loop_range" => {
+                    let j = g.ent("j", "loop", None, None, false);
+                    format!("    for {} in 0 to {} loop\n      null;\n    end loop;\n", g.d(j), x)
+                }
+                "loop_discrete_range_constraint" => {
+                    let j = g.ent("j", "loop", None, None, false);
+                    format!("    for {} in integer range 0 to {} loop\n      null;\n    end loop;\n", g.d(j), x)
+                }
+                "while_cond" => format!("    while {} > 100 loop\n      null;\n    end loop;\n", x),
+                "exit_cond" => {
+                    let l = g.ent("ll", "seq", None, None, false);
+                    format!("    {} : loop\n      exit {} when {} > 0;\n    end loop {};\n", g.d(l), g.r(l, "exit_label"), x, g.r(l, "endlabel"))
+                }
+                "next_cond" => {
+                    let l = g.ent("ll", "seq", None, None, false);
+                    format!("    {} : loop\n      next {} when {} > 0;\n      exit;\n    end loop;\n", g.d(l), g.r(l, "next_label"), x)
+                }
+                "wait_until" => format!("    wait until {} > 0 for 1 ns;\n", x),
+                "assert_cond" => format!("    assert {} > 0;\n", x),
+                "report_expr" => format!("    report integer'image({});\n", x),
+                "severity_site" => format!("    report \"m\" severity severity_level'val({});\n", x),
+                "return_expr" => format!("    {} := {};\n", kw, x), // replaced for function regions below
+                "pcall_actual" => format!("    {}({});\n", g.r(hp.unwrap().0, "helper_call"), x),
+                "assoc_named_actual" => format!("    {}({} => {});\n", g.r(hp.unwrap().0, "helper_call"), g.r(hp.unwrap().1, "assoc_formal"), x),
+                "vassign_target" => format!("    {} := 1;\n", (var_target.unwrap())(g, &site_s)),
+                "cond_vassign_cond" => format!("    {} := 1 when {} > 0 else 2;\n", kw, x),
+                "sel_vassign_expr" => format!("    with {} select {} := 1 when 0, 2 when others;\n", x, kw),
+                "allocator_qualified" => format!("    {} := new integer'({});\n", g.r(hacc.unwrap().1, "sink_target"), x),
+                "call_arg_seq" => format!("    {} := {}({});\n", kw, g.r(hf.unwrap(), "helper_call"), x),
+                "aggregate_seq" => {
+                    let o = harr.unwrap().1;
+                    if g.allows_signals_ent_is_signal(o) {
+                        format!("    {} <= (1 => {}, others => 0);\n", g.r(o, "sink_target"), x)
+                    } else {
+                        format!("    {} := (1 => {}, others => 0);\n", g.r(o, "sink_target"), x)
+                    }
+                }
+                "attr_image_arg" => format!("    report integer'image({});\n", x),
+                _ => unreachable!(),
+            }
+        };
+        // loop parameters / labels created inside `mk` get their parent fixed afterwards (parent of a loop
+        // parameter is the loop label or the enclosing process: the cross-check does not compare parents of
+        // ineligible helper entities with parent None)
+        self.seq_place(r, &mk);
+        self.site_stats.push(site.to_string());
+        true
+    }
+    fn allows_signals_ent_is_signal(&self, _o: usize) -> bool {
+        false
+    }
+
+    fn int_site_decl(&mut self, r: usize, site: &str, e: &dyn Fn(&Gen, &str) -> String, stat: bool) -> bool {
+        let owner0 = self.regions[r].owner;
+        let owner = if owner0 == usize::MAX { None } else { Some(owner0) };
+        let el = self.elig_in(r);
+        let kind = self.regions[r].kind;
+        if kind == Rk::Entity && matches!(site, "variable_default") {
+            return false;
+        }
+        let x = e(self, site);
+        let ind = if matches!(kind, Rk::Process | Rk::Subprog) { "    " } else { "  " };
+        let t = match site {
+            "default_value" => {
+                let c = self.ent("dc", "obj", owner, None, el);
+                format!("{}constant {} : integer := {};\n", ind, self.d(c), x)
+            }
+            "subtype_range" => {
+                let c = self.ent("dc", "obj", owner, None, el);
+                format!("{}constant {} : integer range 0 to {} := 0;\n", ind, self.d(c), x)
+            }
+            "subtype_index_constraint" => {
+                let c = self.ent("dc", "obj", owner, None, el);
+                format!("{}constant {} : bit_vector({} downto 0) := (others => '0');\n", ind, self.d(c), x)
+            }
+            "alias_name" => return false, // handled by the dedicated alias sites (needs a name, not an expression)
+            "attr_spec_entity" => return false,
+            "param_default" => {
+                if kind == Rk::PkgHead {
+                    return false;
+                }
+                let p = self.ent("dp", "over", owner, None, el);
+                let v = self.ent("v", "iobj", Some(p), None, true);
+                format!("{}procedure {} ({} : in integer := {}) is\n{}begin\n{}end procedure;\n", ind, self.d(p), self.d(v), x, ind, ind)
+            }
+            "array_index_range" => {
+                if !stat {
+                    return false;
+                }
+                let t = self.ent("dt", "type", owner, None, el);
+                format!("{}type {} is array (0 to {}) of integer;\n", ind, self.d(t), x)
+            }
+            "type_range" => {
+                if !stat {
+                    return false;
+                }
+                let t = self.ent("dt", "type", owner, None, el);
+                format!("{}type {} is range 0 to {};\n", ind, self.d(t), x)
+            }
+            "subtype_decl_range" => {
+                let t = self.ent("dt", "type", owner, None, el);
+                format!("{}subtype {} is integer range 0 to {};\n", ind, self.d(t), x)
+            }
+            "signal_default" => {
+                if !self.allows_signals(r) {
+                    return false;
+                }
+                let s = self.ent("ds", "obj", owner, None, el);
+                format!("{}signal {} : integer := {};\n", ind, self.d(s), x)
+            }
+            "variable_default" => {
+                if !self.allows_variables(r) {
+                    return false;
+                }
+                let s = self.ent("dv", "obj", owner, None, el);
+                format!("{}variable {} : integer := {};\n", ind, self.d(s), x)
+            }
+            "comp_generic_default" => {
+                if matches!(kind, Rk::Process | Rk::Subprog | Rk::PkgBody | Rk::ProtBody) && kind != Rk::PkgBody {
+                    return false;
+                }
+                if kind == Rk::PkgBody || kind == Rk::Entity {
+                    return false;
+                }
+                let c = self.ent("dcm", "comp", owner, None, el);
+                let g = self.ent("cg", "iobj", Some(c), None, false);
+                format!("{}component {} is\n{}  generic ({} : integer := {});\n{}end component;\n", ind, self.d(c), ind, self.d(g), x, ind)
+            }
+            "record_elem_constraint" => {
+                let t = self.ent("dr", "type", owner, None, el);
+                let f = self.ent("f", "elem", Some(t), None, false);
+                format!("{}type {} is record\n{}  {} : bit_vector({} downto 0);\n{}end record;\n", ind, self.d(t), ind, self.d(f), x, ind)
+            }
+            _ => return false,
+        };
+        self.decl(r, t);
+        self.site_stats.push(site.to_string());
+        true
+    }
+}
+
+include!("gen_units.rs");
+
+pub fn gen_project(seed: u64, pi: usize, gpp: usize) -> Value {
+    let mut r0 = Rng::new(seed);
+    r0.next();
+    let mut rng = Rng(r0.next() ^ (pi as u64 + 1).wrapping_mul(0xD6E8_FEB8_6659_FD93));
+    rng.next();
+    let mut groups = vec![];
+    for gi in 0..gpp {
+        let gid = pi * 1000 + gi;
+        let gseed = rng.next();
+        let lib = if rng.chance(1, 4) { "tp" } else { "lib" };
+        let is_entity = rng.chance(3, 5);
+        let split = rng.chance(1, 3);
+        let (files, stats) = gen_group(gseed, gid, is_entity, split);
+        let edit = if rng.chance(1, 6) {
+            let mut e = gen_group(rng.next(), gid, is_entity, split).0;
+            // sometimes the file of the secondary unit is emptied instead (shape of finding F3)
+            if split && rng.chance(1, 2) {
+                let name = files[1][0].clone();
+                e = vec![json!([name, ""])];
+            }
+            Some(e)
+        } else {
+            None
+        };
+        groups.push(json!({"gid": gid, "lib": lib, "seed": gseed.to_string(), "files": files, "edit": edit, "sites": stats}));
+    }
+    json!({"id": format!("p{}", pi), "groups": groups, "flip": pi % 3 == 0})
 }
